@@ -97,6 +97,26 @@ func kSpace(c *mc.Ctx) []kcase {
 	for _, v := range []*big.Int{big.NewInt(0), one, new(big.Int).Sub(L, one), L} {
 		add(v, "alphabet")
 	}
+	// L - 2^e + d and 2^e + d for every e (d in {-1,0,1}): one coordinate of the short vector is a power of two
+	for e := uint(0); e <= 254; e++ {
+		for d := int64(-1); d <= 1; d++ {
+			add(new(big.Int).Add(new(big.Int).Sub(L, pow2(e)), big.NewInt(d)), "L-2^e")
+			add(new(big.Int).Add(pow2(e), big.NewInt(d)), "alphabet")
+		}
+	}
+	// values around the 128-bit boundary of the truncated coordinates: [2^126, 2^129), structured and generic
+	for i := 0; i < c.Pick(400, 4000); i++ {
+		g := ref.FromLE(mc.Bytes(c.Seed, "c16-128", i, 17))
+		bits := uint(126 + i%4) // 2^126 <= v < 2^130
+		v := new(big.Int).Or(new(big.Int).Mod(g, pow2(bits)), pow2(bits))
+		add(v, "near-2^128")
+		if i < 64 {
+			add(new(big.Int).Sub(pow2(128), big.NewInt(int64(i))), "near-2^128")
+			add(new(big.Int).Add(pow2(127), big.NewInt(int64(i))), "near-2^128")
+			add(new(big.Int).Sub(pow2(127), big.NewInt(int64(i+1))), "near-2^128")
+			add(new(big.Int).Add(pow2(128), big.NewInt(int64(i))), "near-2^128")
+		}
+	}
 	// floor(L/m) + e
 	for m := int64(2); m <= 300; m++ {
 		q := new(big.Int).Div(L, big.NewInt(m))
@@ -318,14 +338,25 @@ func run(c *mc.Ctx) {
 		c.Cap("remaining lattice batches and the triple-base sub-spaces skipped: FindShortVector did not terminate on some scalar (reported as a violation)")
 		return
 	}
-	triple(c, ks)
+	func() {
+		// a library panic while the operands are prepared (decode, Add, rescale, NewExpandedEdwardsPoint) is a violation, not a harness error
+		defer func() {
+			if p := recover(); p != nil {
+				msg := fmt.Sprint(p)
+				c.Seq("triple-setup", 1, func(w *mc.W, i int) {
+					w.Fail("triple-setup/panic", "preparing the operands of the triple-base sub-spaces failed in the library: "+msg, nil)
+				})
+			}
+		}()
+		triple(c, ks)
+	}()
 	lap("triple")
 
 	if c.Rep.NViolations > 0 {
 		return // a violation is being reported; guards would only add noise
 	}
 	for _, cl := range []string{"alphabet/reduced", "alphabet/unreduced", "L/m/reduced", "sqrt(L)/reduced", "cf-depth5/reduced", "cf-fibonacci/reduced", "cf-run/reduced",
-		"jL/m/reduced", "planted/reduced", "planted/unreduced", "generic/reduced", "generic/unreduced"} {
+		"jL/m/reduced", "L-2^e/reduced", "near-2^128/reduced", "planted/reduced", "planted/unreduced", "generic/reduced", "generic/unreduced"} {
 		c.Require("lattice/"+cl, 50)
 	}
 	c.Require("lattice/cf-depth5/reduced", 3500) // 7776 shapes; those whose quotient product exceeds L collapse onto the same rounded value
@@ -535,10 +566,9 @@ func triple(c *mc.Ctx, ks []kcase) {
 	}
 
 	prod := mc.Product{Radix: []int{len(as), len(bs), len(aps), len(rs)}}
-	c.Par("triple", prod.Size(), func(w *mc.W, i int) {
-		var dg [4]int
-		prod.Decode(i, dg[:])
-		ai, bi, Ai, Ri := dg[0], dg[1], dg[2], dg[3]
+	// runCase is one (a, b, A, R) case.  x == nil: the shared expanded object of A's representation is used (many
+	// goroutines read it); x != nil: the caller's own object, used for a whole sequence of cases (sub-space triple-reuse).
+	runCase := func(w *mc.W, i, ai, bi, Ai, Ri int, x *curve.ExpandedEdwardsPoint, pre string) {
 		a, b, ap, r := as[ai], bs[bi], eaps[Ai], rs[Ri]
 		repA, repC := (ai+bi+Ri)%ptalph.NumReps, (ai+2*bi+Ai)%ptalph.NumReps
 		// reference: W = [a]A + [b]B with the INTEGER a (A may carry torsion), C = W - R
@@ -592,27 +622,69 @@ func triple(c *mc.Ctx, ks []kcase) {
 					name, a, ap.el.Name, b, r.el.Name, genc, exact[0].Encode(), d1), cas)
 			}
 		}
-		cls := fmt.Sprintf("triple/A=%s/in-torsion=%v", ap.kind, r.inTorsion)
+		cls := fmt.Sprintf("%s/A=%s/in-torsion=%v", pre, ap.kind, r.inTorsion)
 		nt := a.Cmp(ref.L) >= 0 || b.Cmp(ref.L) >= 0 || ap.kind != "prime-order" || r.el.Tors != 0
 		A := ap.reps[repA]
+		if x == nil {
+			x = ap.exps[repA]
+		}
+		sa, sb := libA[ai], libB[bi]
+		if a.Cmp(b) == 0 {
+			sb = sa // equal scalars: one object for both operands
+		}
+		snap := ptalph.Snap(sa, sb, A, x, libC)
 		check("EdwardsPoint.TripleScalarMulBasepointVartime", func() *curve.EdwardsPoint {
-			return nr().TripleScalarMulBasepointVartime(libA[ai], A, libB[bi], libC)
+			return nr().TripleScalarMulBasepointVartime(sa, A, sb, libC)
 		})
 		w.Eval(cls+"/plain", nt)
 		check("EdwardsPoint.ExpandedTripleScalarMulBasepointVartime", func() *curve.EdwardsPoint {
-			return nr().ExpandedTripleScalarMulBasepointVartime(libA[ai], ap.exps[repA], libB[bi], libC)
+			return nr().ExpandedTripleScalarMulBasepointVartime(sa, x, sb, libC)
 		})
 		w.Eval(cls+"/expanded", nt)
+		if snap.Changed(sa, sb, A, x, libC) {
+			w.Fail("TripleScalarMulBasepointVartime/input-modified", fmt.Sprintf("Triple/ExpandedTripleScalarMulBasepointVartime(a=0x%x, A=%s, b=0x%x, C): a scalar, A, the expanded A or C was modified by the call", a, ap.el.Name, b), cas)
+		}
 		// receiver aliases an operand
 		if (ai+bi)%2 == 0 {
 			rc := curve.NewEdwardsPoint().Set(A)
-			check("EdwardsPoint.TripleScalarMulBasepointVartime/alias-A", func() *curve.EdwardsPoint { return rc.TripleScalarMulBasepointVartime(libA[ai], rc, libB[bi], libC) })
+			check("EdwardsPoint.TripleScalarMulBasepointVartime/alias-A", func() *curve.EdwardsPoint { return rc.TripleScalarMulBasepointVartime(sa, rc, sb, libC) })
+			rc2 := curve.NewEdwardsPoint().Set(libC)
+			check("EdwardsPoint.ExpandedTripleScalarMulBasepointVartime/alias-C", func() *curve.EdwardsPoint { return rc2.ExpandedTripleScalarMulBasepointVartime(sa, x, sb, rc2) })
 		} else {
 			rc := curve.NewEdwardsPoint().Set(libC)
-			check("EdwardsPoint.TripleScalarMulBasepointVartime/alias-C", func() *curve.EdwardsPoint { return rc.TripleScalarMulBasepointVartime(libA[ai], A, libB[bi], rc) })
+			check("EdwardsPoint.TripleScalarMulBasepointVartime/alias-C", func() *curve.EdwardsPoint { return rc.TripleScalarMulBasepointVartime(sa, A, sb, rc) })
 		}
 		if i%9973 == 0 {
 			w.Sample(cas)
+		}
+	}
+	c.Par("triple", prod.Size(), func(w *mc.W, i int) {
+		var dg [4]int
+		prod.Decode(i, dg[:])
+		runCase(w, i, dg[0], dg[1], dg[2], dg[3], nil, "triple")
+	})
+	// ONE expanded object per A, used for the whole a-alphabet in a row in a single goroutine (the lattice-reduced d0 takes
+	// both signs along the way); every result is checked and the object must be bit-identical after every call.
+	c.Par("triple-reuse", len(eaps), func(w *mc.W, Ai int) {
+		var x *curve.ExpandedEdwardsPoint
+		func() {
+			defer func() { _ = recover() }() // a panic here is reported by the first use below (nil object)
+			x = curve.NewExpandedEdwardsPoint(eaps[Ai].reps[Ai%ptalph.NumReps])
+		}()
+		for ai := range as {
+			runCase(w, 1, ai, ai%len(bs), Ai, (ai+Ai)%len(rs), x, "triple-reuse")
+		}
+		// by-value copy, then the ORIGINAL is set to another point: the copy must keep computing with A
+		if x != nil {
+			cpy := *x
+			x.SetEdwardsPoint(eaps[(Ai+1)%len(eaps)].reps[0])
+			for ai := 0; ai < len(as) && ai < 12; ai++ {
+				runCase(w, 1, ai, (ai+3)%len(bs), Ai, (ai+Ai)%len(rs), &cpy, "triple-reuse/copy-after-original-reset")
+			}
+			// and the re-set original must compute with its new point
+			for ai := 0; ai < len(as) && ai < 12; ai++ {
+				runCase(w, 1, ai, (ai+5)%len(bs), (Ai+1)%len(eaps), (ai+Ai)%len(rs), x, "triple-reuse/original-after-reset")
+			}
 		}
 	})
 
@@ -680,6 +752,7 @@ func triple(c *mc.Ctx, ks []kcase) {
 		}
 		cls := fmt.Sprintf("triple-ristretto/A=%s/identity=%v", ap.kind, r.inTorsion)
 		nt := a.Cmp(ref.L) >= 0 || b.Cmp(ref.L) >= 0 || ap.kind != "prime-order" || r.el.Tors != 0
+		snap := ptalph.Snap(libA[ai], libB[bi], libAp, libC)
 		check("RistrettoPoint.TripleScalarMulBasepointVartime", func() *curve.RistrettoPoint {
 			return nrr().TripleScalarMulBasepointVartime(libA[ai], libAp, libB[bi], libC)
 		})
@@ -688,6 +761,20 @@ func triple(c *mc.Ctx, ks []kcase) {
 			return nrr().ExpandedTripleScalarMulBasepointVartime(libA[ai], curve.NewExpandedRistrettoPoint(libAp), libB[bi], libC)
 		})
 		w.Eval(cls+"/expanded", nt)
+		if (ai+bi)%2 == 0 {
+			rc := curve.NewRistrettoPoint().Set(libAp)
+			check("RistrettoPoint.TripleScalarMulBasepointVartime/alias-A", func() *curve.RistrettoPoint { return rc.TripleScalarMulBasepointVartime(libA[ai], rc, libB[bi], libC) })
+			rc2 := curve.NewRistrettoPoint().Set(libC)
+			check("RistrettoPoint.ExpandedTripleScalarMulBasepointVartime/alias-C", func() *curve.RistrettoPoint {
+				return rc2.ExpandedTripleScalarMulBasepointVartime(libA[ai], curve.NewExpandedRistrettoPoint(libAp), libB[bi], rc2)
+			})
+		} else {
+			rc := curve.NewRistrettoPoint().Set(libC)
+			check("RistrettoPoint.TripleScalarMulBasepointVartime/alias-C", func() *curve.RistrettoPoint { return rc.TripleScalarMulBasepointVartime(libA[ai], libAp, libB[bi], rc) })
+		}
+		if snap.Changed(libA[ai], libB[bi], libAp, libC) {
+			w.Fail("RistrettoPoint.TripleScalarMulBasepointVartime/input-modified", fmt.Sprintf("ristretto Triple/ExpandedTriple(a=0x%x, A=%s, b=0x%x, C): an input was modified by the call", a, ap.el.Name, b), cas)
+		}
 	})
 
 	if c.Rep.NViolations > 0 {
